@@ -164,6 +164,25 @@ def extractLoopModelled : List String :=
    "if (!_threadPool.tryEnqueue([this, sid, requestData]()",
    "processHttpRequest(sid, requestData)"]
 
+/-- The length conversions of both endpoints as the models read them (statement skeletons regenerated from the source as
+`Gen.Http.numberParsers`; `C15.gen_number_parsers` pins the two against each other).  What the models rely on:
+* server Content-Length: an all-digits test (`find_first_not_of("0123456789")`) and then `std::stoull`, whose
+  `std::out_of_range` for values `>= 2^64` is caught by the `catch (...)` that closes the connection - modelled as
+  `parseFullUInt 10` over the UNBOUNDED value of the digit string with an explicit `>= 2^64 => none`;
+* client numbers: `std::from_chars` with `ec == errc()` (overflow is `result_out_of_range`) and `ptr == e` - the same
+  `parseFullUInt`; Content-Length elements must all be equal; chunk sizes are additionally compared with the cap;
+* server chunk size: an accumulator that is compared with `MAX_BODY_SIZE` right after every shift, inside the digit loop, so
+  it never holds more than `16 * MAX_BODY_SIZE + 15` and cannot wrap - modelled as `sizeDigits` over unbounded `Nat`s with the
+  same per-prefix limit check.
+An accumulator loop without such a check (`parsedLength = parsedLength * 10 + …`) computes the value modulo 2^64 and is NOT
+what these models describe. -/
+def numberParsersModelled : List (String × List String) :=
+  [("server Content-Length", ["try", "if (value.empty() || value.find_first_not_of(\"0123456789\") != std::string::npos)", "const std::size_t parsedLength = std::stoull(value)", "if (haveContentLength && parsedLength != contentLength)", "contentLength = parsedLength", "haveContentLength = true", "if (contentLength > SessionInfo::MAX_BODY_SIZE)", "catch (...)"]),
+  ("client parseFullUInt", ["if (b == e)", "return false", "auto r = std::from_chars(b, e, out, base)", "return r.ec == std::errc() && r.ptr == e"]),
+  ("client parseContentLength", ["std::uint64_t result = 0", "bool have = false", "std::uint64_t val = 0", "if (a == std::string::npos || a >= end || b == std::string::npos || b < a || !parseFullUInt(v.data() + a, v.data() + b + 1, 10, val))", "if (have && val != result)", "result = val", "have = true", "if (!have)", "return result"]),
+  ("client chunk size", ["std::uint64_t chunkSize = 0", "if (!parseFullUInt(buf.data() + p, buf.data() + hexEnd, 16, chunkSize) || chunkSize > effectiveCap)", "if (chunkSize == 0)", "if (buf.size() < dataStart || buf.size() - dataStart < chunkSize || buf.size() - dataStart - chunkSize < 2)", "if (buf[dataStart + chunkSize] != '\\r' || buf[dataStart + chunkSize + 1] != '\\n')", "st.decoded.append(buf, dataStart, static_cast<std::size_t>(chunkSize))", "st.pos = dataStart + chunkSize + 2"]),
+  ("server chunk size", ["std::size_t chunkSize = 0", "std::size_t digits = 0", "while (digits < chunkSizeStr.size())", "const char c = chunkSizeStr[digits]", "chunkSize = chunkSize * 16 + v", "++digits", "if (chunkSize > SessionInfo::MAX_BODY_SIZE)", "std::size_t afterSize = digits", "if (digits == 0 || (afterSize < chunkSizeStr.size() ? chunkSizeStr[afterSize] != '", "' : afterSize != digits))", "if (chunkSize == 0)", "if (data.length() - pos < chunkSize + 2)", "if (data[pos + chunkSize] != '\\r' || data[pos + chunkSize + 1] != '\\n')", "decodedBody->append(data, pos, chunkSize)", "pos += chunkSize + 2"])]
+
 /-- one turn of the `while (true)` extraction loop -/
 inductive Extract where
   | needMore
